@@ -30,6 +30,7 @@ def init_world(world, base_dir, layout, tls, config_kw) -> None:
               subsystem=world.sub, cpu_subsystem=Subsystem.for_asyncio(),
               hash_context=world.hash_context, invalid_user_sleep=0.0, tls_enabled=tls)
     kw.update(config_kw)
+    world.colon = kw.get('colon') or ':'
     config = Config(args, **kw)
     login = Login(config)
     world.backend = MaildirBackend(login, config)
@@ -133,7 +134,7 @@ def dump(world, mbx: str, user: str | None = None):
         d = os.path.join(path, sub)
         if os.path.isdir(d):
             for fn in os.listdir(d):
-                key, _, info = fn.partition(':')
+                key, _, info = fn.partition(getattr(world, 'colon', ':'))
                 files[key] = (sub, info, os.path.getsize(os.path.join(d, fn)))
     m = {'S': '\\Seen', 'T': '\\Deleted', 'F': '\\Flagged', 'R': '\\Answered', 'D': '\\Draft'}
     uids, flags, rbits = [], [], []
@@ -148,6 +149,20 @@ def dump(world, mbx: str, user: str | None = None):
             rbits.append(sub == 'new')
     # pseudo-row 0: the UIDVALIDITY written in the control file
     return [0] + uids, [[f'validity-{_v}']] + flags, [False] + rbits
+
+
+def deliver(world, mbx: str, n: int, user: str | None = None) -> str:
+    """what a mail delivery agent does, without pymap: write the message to tmp/, rename it into
+    new/ under a unique name WITHOUT an info suffix (no ":2,").  The backend learns of the file
+    at its next reset() (SELECT / EXAMINE / the poll of a selected mailbox)."""
+    path = _folder_path(world, mbx, user)
+    name = f'1700000000.M{n}P1.verif'
+    body = (f'From: mda{n}@verif.test\nSubject: m{9000 + n}\n\nexternal delivery {n}\n').encode()
+    tmp = os.path.join(path, 'tmp', name)
+    with open(tmp, 'wb') as f:
+        f.write(body)
+    os.rename(tmp, os.path.join(path, 'new', name))
+    return name
 
 
 def store_uids(world, user: str | None = None) -> dict:
